@@ -25,11 +25,21 @@ def one(name):
             sig.split('  ')[0][4:90], str(meta.get('check_result', ''))[:160])
 
 
-with concurrent.futures.ThreadPoolExecutor(3) as ex:
+with concurrent.futures.ThreadPoolExecutor(int(os.environ.get('SWEEP_PAR', '3'))) as ex:
     rows = list(ex.map(one, names))
+# rows of earlier runs are kept in <dir>/sweep_rows.json so that a run restricted to some prefixes refreshes only those rows
+_rp = os.path.join(V, 'seeded', 'sweep_rows.json')
+_all = {}
+if only and os.path.exists(_rp):
+    _all = {r[0]: tuple(r) for r in json.load(open(_rp))}
 for r in rows:
+    _all[r[0]] = r
+_key = lambda n: (n.split('-')[0], int(n.split('-')[1]))
+rows_now, rows = rows, [_all[n] for n in sorted(_all, key=_key)]
+json.dump(rows, open(_rp, 'w'), indent=0)
+for r in rows_now:
     print(r[0], r[5], flush=True)
-if not only:
+if True:
     with open(os.path.join(V, 'seeded', 'RESULTS.md'), 'w') as f:
         f.write('# Seeded changes vs. checks\n\nProduced by `tools/seedsweep.py`: every stored change is applied to a scratch copy of /repo HEAD; demo before/after, '
                 'the 133-test suite with the change, and the quick check of its property against the changed copy. "first evaluation" is what the check said when the '
